@@ -78,7 +78,12 @@ struct CDynClass {
         std::sort(bk.begin(), bk.end());
         for (K k : bk) p.item('P', key_text(k) + " " + std::to_string(next_value++));
         size_t nops = boundary ? (size_t) cfg.range(0, 12) : (g.tier == "thorough" && cfg.chance(100) ? (size_t) cfg.range(400, 5000) : (size_t) cfg.range(1, 500));
+        // growth mode: the wrapper has no configuration parameters (base 8, buffer of 585 entries), so only a long,
+        // insert-heavy history over many distinct keys makes the container start using new levels after its creation
+        bool growth = !boundary && !large && cfg.chance(120);
+        if (growth) { nops = (size_t) cfg.range(650, 1600); p.set("growth", 1); }
         for (size_t i = 0; i < nops; ++i) {
+            if (growth && work.chance(850)) { p.item('O', "I " + key_text(km.at(work.range(0, km.U))) + " " + std::to_string(next_value++)); continue; }
             switch (work.below(12)) {
                 case 0: case 1: case 2: case 3: case 4: p.item('O', "I " + key_text(dk()) + " " + std::to_string(next_value++)); break;
                 case 5: case 6: p.item('O', "E " + key_text(dk())); break;
